@@ -115,7 +115,7 @@ def same(a, b):
         return False, f"shape {a.shape} vs {b.shape}"
     if a.dtype != b.dtype:
         return False, f"dtype {a.dtype} vs {b.dtype}"
-    if a.dtype.kind in "iub" or a.dtype.names or a.dtype.kind not in "fc":
+    if a.dtype.kind in "iub" or a.dtype.fields is not None:   # structured (arg-reduction chunk) values: exact
         ok = np.array_equal(a, b)
     else:
         ok = np.allclose(a.astype("float64"), b.astype("float64"), rtol=1e-9, atol=1e-9, equal_nan=True)
